@@ -155,6 +155,7 @@ class FakeS3:
         if ContinuationToken is not None:
             start = int(str(ContinuationToken).split(":")[1])
         n = max(1, min(MaxKeys, self.page_size))
+        self._h("before", "list-page", Prefix, {"index": start // n})        # a page request of a token-driven listing loop
         keys = allkeys[start:start + n]
         self.log.append(("list", Prefix, None))
         self._h("after", "list", Prefix, {})
